@@ -116,8 +116,10 @@ class SimParallel(object):
         world.stats["tasks"] += len(tasks)
         n_eff = self._n_eff(len(tasks))
         mode = world.mode
-        wants_threads = (self.backend == "threading" or self.prefer == "threads" or self.require == "sharedmem")
-        wants_procs = (self.backend in ("loky", "multiprocessing") or self.prefer == "processes")
+        # `prefer=` is a soft hint that a caller's joblib.parallel_config(backend=...) overrides: only an explicit
+        # backend or require="sharedmem" pins the kind of worker; otherwise the world's mode (the deployment) decides
+        wants_threads = (self.backend == "threading" or self.require == "sharedmem")
+        wants_procs = (self.backend in ("loky", "multiprocessing"))
         if wants_threads and mode == "proc":
             mode = "thread-coop"
         if wants_procs and mode != "proc":
